@@ -106,6 +106,7 @@ class _State:
 
     warnlog = None  # the live list of warnings.catch_warnings(record=True) of the running case
     history = collections.OrderedDict()  # (class, params, X digest) -> yielded test sets
+    canon_history = collections.OrderedDict()  # (class, canonical params, X digest) -> (spelling, yielded test sets)
     judged = set()  # seq ids of split events already judged
 
 
@@ -214,6 +215,29 @@ def _params(cv):
     return {k: v for k, v in sorted(vars(cv).items())}
 
 
+def _canon_text(cv):
+    """The parameters with their spelling removed (python / numpy scalars, 0-d arrays, tuple / list / ndarray, scalar = pair)."""
+    out = []
+    for key, val in _params(cv).items():
+        if val is None:
+            pass
+        elif isinstance(val, np.random.RandomState):
+            val = "RandomState@%x" % id(val)
+        elif key == "spacing":
+            arr = np.atleast_1d(np.asarray(val, dtype="float64")).ravel()
+            val = tuple(float(v) for v in (arr if arr.size > 1 else [arr[0], arr[0]]))
+        elif key == "shape":
+            val = tuple(int(v) for v in np.asarray(val).ravel())
+        elif key in ("shuffle", "balance"):
+            val = bool(val)
+        elif key in ("test_size", "train_size"):
+            val = ("count", int(val)) if np.asarray(val).dtype.kind in "iu" else ("fraction", float(val))
+        elif key in ("n_splits", "balancing", "random_state"):
+            val = int(val)
+        out.append("%s=%r" % (key, val))
+    return ", ".join(out)
+
+
 def _params_text(cv):
     out = []
     for key, val in _params(cv).items():
@@ -237,6 +261,7 @@ def install(tap, run):
 
     ST.warnlog = None
     ST.history = collections.OrderedDict()
+    ST.canon_history = collections.OrderedDict()
     ST.judged = set()
 
     def witness(cv, xmat, labels=None, **extra):
@@ -484,7 +509,7 @@ def install(tap, run):
         else:
             run.count("class:other_subclass")
 
-        # reproducibility
+        # reproducibility (the workload re-seeds numpy's GLOBAL generator differently before every pass)
         rs = getattr(cv, "random_state", None)
         deterministic = _is_int(rs) or (kind == "BlockKFold" and not cv.shuffle)
         if complete and deterministic:
@@ -499,9 +524,32 @@ def install(tap, run):
                 run.evaluated("reproducible")
                 if _is_int(rs) and (kind != "BlockKFold" or cv.shuffle):
                     run.count("reproducible:seeded_random_runs_compared")
+                    if kind == "BlockKFold":
+                        branch = ("fallback" if warned else "balanced") if cv.balance else "unbalanced"
+                        run.count("reproducible:kfold_shuffled_%s" % branch)
+                    else:
+                        run.count("reproducible:shuffle_split_seeded")
                 if prev != mine:
-                    run.violation("reproducible", "the same %s (random_state=%r) on the same X yielded different splits on a second run" % (kind, rs),
+                    run.violation("reproducible", "the same %s (random_state=%r) on the same X yielded different splits on a second run "
+                                  "(numpy's global generator was re-seeded differently in between)" % (kind, rs),
                                   witness(cv, xmat, labels, second_run_tests=tests), key="reproducible")
+            # the same configuration spelled differently (python / numpy scalars, 0-d arrays, lists, ndarrays, scalar = pair)
+            try:
+                ckey = (kind, _canon_text(cv), xdigest)
+            except (TypeError, ValueError):
+                ckey = None
+            if ckey is not None:
+                first = ST.canon_history.get(ckey)
+                if first is None:
+                    ST.canon_history[ckey] = (ptext, mine)
+                    while len(ST.canon_history) > 256:
+                        ST.canon_history.popitem(last=False)
+                elif first[0] != ptext:
+                    run.evaluated("spelling_equivalence")
+                    if first[1] != mine:
+                        run.violation("spelling_equivalence",
+                                      "the same configuration spelled differently yields different splits: [%s] versus [%s]" % (first[0], ptext),
+                                      witness(cv, xmat, labels, tests=tests, other_spelling=first[0]), key="spelling")
 
     def judge_kfold(ev, cv, xmat, labels, occupied, populations, tests, warned):
         n, k = xmat.shape[0], int(cv.n_splits)
@@ -694,8 +742,33 @@ def _refusal_expected(cv, n_occupied):
     return prescribed_counts(n_occupied, cv.test_size, cv.train_size) is None
 
 
+_GLOBAL = [0]
+
+
+def _perturb_global_state():
+    """Put numpy's GLOBAL generator into a different state before every pass (reproducibility must not depend on it)."""
+    _GLOBAL[0] += 1
+    np.random.seed((_GLOBAL[0] * 2654435761) % (2 ** 32))
+    for _ in range(_GLOBAL[0] % 3):
+        np.random.random()
+
+
+def _partial(run, cv, xmat, n_occupied):
+    """next(cv.split(X)) and abandon the generator (what train_test_split does); must not influence later passes."""
+    _perturb_global_state()
+    try:
+        gen = cv.split(xmat)
+        next(gen)
+        gen.close()
+        run.count("partially_consumed_generators")
+    except ValueError:
+        if not _refusal_expected(cv, n_occupied):
+            raise
+
+
 def _drive(run, cv, xmat, n_occupied):
     """Consume one split completely inside the case's warning capture. Documented refusals are counted, the rest escapes."""
+    _perturb_global_state()
     try:
         return list(cv.split(xmat))
     except ValueError:
@@ -750,10 +823,12 @@ def _lattice_vector(run, rng, verde, vec, pos, entry):
                 if entry is not None:
                     entry["done"] += 1
     # extras (not part of the lattice count): a repeated seeded run, the rejection clause, one BlockShuffleSplit
-    k = int(rng.integers(2, occ + 1))
-    balance = bool(rng.random() < 0.5)
-    for _ in range(2):
-        _drive(run, verde.BlockKFold(n_splits=k, shuffle=True, random_state=seeds[0], balance=balance, **geometry), xmat, occ)
+    for k in range(2, occ + 1):
+        for balance in (True, False):
+            cv = verde.BlockKFold(n_splits=k, shuffle=True, random_state=seeds[0], balance=balance, **geometry)
+            if (k + pos) % 3 == 0:
+                _partial(run, cv, xmat, occ)
+            _drive(run, cv if (k + pos) % 2 else _clone(cv), xmat, occ)  # second pass (same or fresh instance), other global state
     _drive(run, verde.BlockKFold(n_splits=occ + 1, balance=bool(pos % 2), **geometry), xmat, occ)
     test_size = [0.5, 1, 0.34, occ - 1, 0.1][pos % 5]
     cv = verde.BlockShuffleSplit(n_splits=2, test_size=test_size, balancing=int(rng.integers(1, 5)), random_state=seeds[1], **geometry)
@@ -1081,6 +1156,8 @@ def _run_random(run, index, rng):
             run.count("input:random_state=%s" % state_kind)
             pairs = _drive(run, cv, xmat, n_occ)
             if pairs is not None and state_kind == "int" and rng.random() < 0.6:
+                if rng.random() < 0.5:
+                    _partial(run, cv, xmat, n_occ)
                 _drive(run, cv, xmat, n_occ)  # the same object again
                 _drive(run, _clone(cv), xmat.copy(), n_occ)  # a fresh object, a fresh copy of X
         del ST.warnlog[:]
@@ -1167,6 +1244,7 @@ def _run_partition(run, index, rng):
 
 def run_case(run, tap, stream, index, rng):
     ST.history.clear()
+    ST.canon_history.clear()
     ST.judged.clear()
     with warnings.catch_warnings(record=True) as log:
         warnings.simplefilter("always")
